@@ -98,9 +98,46 @@ def context_of(path, wanted):
     return out
 
 
+# repo functions whose meaning the translator ASSUMES (a runtime primitive stands for them, or the signature table says what they do) instead of reading their
+# body: their full source text is pinned.  (relative file, class or None, function) -> the Gen modules that rely on it ('*' = all)
+ASSUMED = [
+    ('utils/_utils.py', None, 'matrix_power'),          # npMatrixPower (exact repeated squaring) in is_ergodic / is_fuzzy_ergodic / ergodic_mask / the CK test
+    ('utils/_utils.py', None, '_flatten_data'),         # npFlattenLL / identity on 1-d arrays
+    ('utils/_utils.py', None, '_unflatten_data'),       # npUnflattenLL
+    ('utils/_utils.py', None, 'format_state_traj'),     # identity on a list of 1-d integer arrays
+    ('utils/_utils.py', None, '_check_state_traj'),
+    ('statetraj.py', 'StateTraj', '__iter__'),          # iteration over an object = its `trajs` (table entry `iter` of an object given by attributes)
+    ('statetraj.py', 'LumpedStateTraj', '__iter__'),    # absent on the unchanged tree: inherited
+    ('statetraj.py', 'StateTraj', '__len__'),           # `len(self)` (table entry `len_self`)
+    ('statetraj.py', 'LumpedStateTraj', '__len__'),     # absent: inherited
+]
+
+
+def assumed_sources(repo):
+    out = {}
+    for rel, cls, fn in ASSUMED:
+        path = os.path.join(repo, 'src', 'msmhelper', rel)
+        tree = ast.parse(open(path).read())
+        body = tree.body
+        if cls is not None:
+            cl = [n for n in tree.body if isinstance(n, ast.ClassDef) and n.name == cls]
+            body = cl[0].body if cl else []
+        defs = [n for n in body if isinstance(n, ast.FunctionDef) and n.name == fn]
+        # the docstring is not part of the meaning
+        texts = []
+        for d in defs:
+            import copy
+            d = copy.deepcopy(d)
+            if d.body and isinstance(d.body[0], ast.Expr) and isinstance(d.body[0].value, ast.Constant) and isinstance(d.body[0].value.value, str):
+                d.body = d.body[1:] or [ast.Pass()]
+            texts.append(ast.unparse(d))
+        out['%s:%s%s' % (rel, (cls + '.') if cls else '', fn)] = texts
+    return out
+
+
 def snapshot(repo):
     idx, _mods = translated_index()
-    snap = {}
+    snap = {'assumed:sources': assumed_sources(repo)}
     for rel, wanted in sorted(idx.items()):
         path = os.path.join(repo, 'src', 'msmhelper', rel)
         snap[rel] = context_of(path, wanted)
@@ -113,7 +150,67 @@ def snapshot(repo):
     return snap
 
 
-def check(repo):
+def reliance(repo, files):
+    """which Gen modules rely on which pinned 'assumed' text: {key: set(module names)} — direct users (the name occurs in the source of one of the module's
+    translated functions; dunder methods: modules translated from the two classes or taking an object by attributes; re-exports: modules whose functions
+    use `mh.`-qualified names) closed under the import relation of the generated Lean modules"""
+    import re
+    import np2lean
+    import py2lean
+    idx, mods = translated_index()
+    srcs = {}          # module -> concatenated source of its translated functions
+    uses_obj, uses_len = set(), set()
+    for rel, ns, funcs in py2lean.KERNELS:
+        srcs[ns] = srcs.get(ns, '') + _sources(repo, rel, None, [n for n, _ in funcs])
+    for rel, ns, cls, funcs in np2lean.NP_KERNELS:
+        srcs[ns] = srcs.get(ns, '') + _sources(repo, rel, cls, [n for n, _ in funcs])
+        if any(any('iter' in o for o in sig.get('objects', {}).values()) for _n, sig in funcs):
+            uses_obj.add(ns)
+        if any('len_self' in sig.get('self_props', {}) for _n, sig in funcs):
+            uses_len.add(ns)
+    imports = {}
+    for fn, text in (files or {}).items():
+        if fn.endswith('.lean') and not fn.endswith('Run.lean') and text:
+            imports[fn[:-5]] = set(re.findall(r'^import MsmVerif\.Gen\.([A-Za-z]+)$', text, re.M)) - {'PyRt', 'NpRt'}
+
+    def closure(direct):
+        out = set(direct)
+        changed = True
+        while changed:
+            changed = False
+            for m, deps in imports.items():
+                if m not in out and deps & out:
+                    out.add(m)
+                    changed = True
+        return out
+    rel_ = {}
+    for rel, cls, fn in ASSUMED:
+        key = '%s:%s%s' % (rel, (cls + '.') if cls else '', fn)
+        if fn == '__iter__':
+            rel_[key] = closure(uses_obj)
+        elif fn == '__len__':
+            rel_[key] = closure(uses_len)
+        else:
+            rel_[key] = closure({m for m, t in srcs.items() if re.search(r'\b%s\b' % re.escape(fn), t)})
+    rel_['reexports'] = closure({m for m, t in srcs.items() if re.search(r'\bmh\.', t)})
+    return rel_
+
+
+def _sources(repo, rel, cls, names):
+    path = os.path.join(repo, 'src', 'msmhelper', rel)
+    try:
+        src = open(path).read()
+        tree = ast.parse(src)
+    except (OSError, SyntaxError):
+        return ''
+    body = tree.body
+    if cls is not None:
+        cl = [n for n in tree.body if isinstance(n, ast.ClassDef) and n.name == cls]
+        body = cl[0].body if cl else []
+    return '\n'.join(ast.get_source_segment(src, n) or '' for n in body if isinstance(n, ast.FunctionDef) and n.name in names)
+
+
+def check(repo, files=None):
     """{Gen module file name: [problem, …]} for every difference between the working tree and harness/pins.json"""
     pinned = json.load(open(PINS))
     _idx, mods = translated_index()
@@ -138,20 +235,27 @@ def check(repo):
                 return ['%s: order changed' % what]
             return ['%s: pinned `%s` → now `%s`' % (what, ' | '.join(str(x)[:120] for x in gone) or '—', ' | '.join(str(x)[:120] for x in new) or '—')]
         return ['%s: pinned `%s` → now `%s`' % (what, str(a)[:160], str(b)[:160])]
-    reexp = []
+    rel_ = None
     for key in sorted(set(pinned) | set(now)):
+        if key == 'assumed:sources':
+            a, b = pinned.get(key) or {}, now.get(key) or {}
+            for k2 in sorted(set(a) | set(b)):
+                d = diff(a.get(k2), b.get(k2), 'assumed source ' + k2)
+                if d:
+                    rel_ = rel_ or reliance(repo, files)
+                    for ns in sorted(rel_.get(k2, set())):
+                        probs.setdefault(ns + '.lean', []).extend('a helper whose meaning the translation assumes changed — ' + x for x in d)
+            continue
         d = diff(pinned.get(key), now.get(key), key)
         if not d:
             continue
         if key.startswith('reexports:'):
-            reexp += d
+            rel_ = rel_ or reliance(repo, files)
+            for ns in sorted(rel_.get('reexports', set())):
+                probs.setdefault(ns + '.lean', []).extend('package re-exports changed — ' + x for x in d)
         else:
             for ns in sorted(mods.get(key, [])):
                 probs.setdefault(ns + '.lean', []).extend('context of the translated functions changed — ' + x for x in d)
-    if reexp:
-        for nss in mods.values():
-            for ns in nss:
-                probs.setdefault(ns + '.lean', []).extend('package re-exports changed — ' + x for x in reexp)
     return probs
 
 
